@@ -431,7 +431,7 @@ callbacks already registered, either setting of `implicit_sequence_conversion` /
 `make_sequence()` happen, then `get_wsgi_response` for any method, then any sequence `mid` of the
 server pulling chunks (generator bodies closed early included), FURTHER callback registrations
 (`call_on_close` after `get_app_iter`), `get_data()` / `make_sequence()` on the side; then the server
-closes the iterable. Unless the response is in direct passthrough with a body to send (F05), every
+closes the iterable (`freeze()` may occur among these events too). Unless the response is in direct passthrough with a body to send (F05), every
 close action - the wrapped iterable's own `close` when it has one, every callback registered before
 or after - has run exactly as often as it was registered: once. -/
 theorem close_exactly_once_history (r : R) (cfg : Cfg) (pre mid : List REv) (m lo co : Str)
@@ -473,7 +473,7 @@ theorem close_exactly_once_history (r : R) (cfg : Cfg) (pre mid : List REv) (m l
   simp only [initSt]
   omega
 
-example : ([REv.callOnClose 0, .getData] ++ [REv.take 1, .callOnClose 1, .makeSequence]).all quiet = true := by decide
+example : ([REv.callOnClose 0, .getData, .freeze []] ++ [REv.take 1, .callOnClose 1, .makeSequence]).all quiet = true := by decide
 
 /-- every close event - the server closing a `ClosingIterator`, `response.close()`, leaving a `with`
 block - runs exactly the actions due at that moment, once each; so closing twice (explicitly and by
@@ -510,21 +510,19 @@ theorem from_app_close_exactly_once (rI rO : R) (cfgI cfgO : Cfg) (mI mO : Str) 
     have := close_exactly_once_history rI cfgI [] [.take n] mI [] [] rfl (by simp [hdI]) e
     simpa [regs] using this
 
-/-- F05b: `freeze()` consumes a streamed body into a list but - unlike `make_sequence()` - does not
-take over the iterable's `close`: with a closable iterator as body, `freeze()`, `get_wsgi_response`,
-and the server closing, the iterable's own `close` never runs. (So `close_exactly_once_history`
-cannot admit `freeze` among the events.) -/
-theorem freeze_loses_wrapped_close_full_false :
-    ¬ (∀ (r : R) (cfg : Cfg) (etag m : Str) (e : CloseEv),
-        (runEvs (initSt r cfg) [.freeze etag, .getWsgi m [] [], .iterClose]).log.count e = (expectedClose r).count e) := by
-  intro h
-  exact absurd (h ⟨[], [], 200, ⟨.stream true, [.bytes [97]]⟩, false, [.cb 0]⟩ {} [] "GET".toList .wrapped) (by decide)
+/-- the F05b regression (repaired by 41b0631): `freeze()` on a closable iterator body, then
+`get_wsgi_response` and the server closing - the iterator's own `close` and the callback each run
+exactly once (before the repair the iterator's close never ran) -/
+theorem freeze_keeps_wrapped_close_regression :
+    (runEvs (initSt ⟨[], [], 200, ⟨.stream true, [.bytes [97]]⟩, false, [.cb 0]⟩ {})
+      [.freeze [], .getWsgi "GET".toList [] [], .iterClose]).log = [.cb 0, .wrapped] := by
+  decide
 
-/-- ... whereas for list / tuple bodies and streamed bodies without `close`, `freeze()` keeps the
-guarantee, and in every case it leaves a sequence body whose Content-Length header is exactly the
-number of body bytes -/
-theorem freeze_partial (r : R) (cfg : Cfg) (etag m : Str) (e : CloseEv)
-    (hk : r.body.kind ≠ .stream true)
+/-- **`freeze()` at full strength** (it is one of the quiet events of `close_exactly_once_history`,
+so it may occur anywhere before or after `get_wsgi_response`): for every body shape it leaves a
+sequence body whose Content-Length header is exactly the number of body bytes, and every close
+action still runs exactly once when the server closes the response. -/
+theorem freeze_full (r : R) (cfg : Cfg) (etag m : Str) (e : CloseEv)
     (h : ¬ (r.directPassthrough = true ∧ bodyless r.status m = false)) :
     (runEvs (initSt r cfg) [.freeze etag, .getWsgi m [] [], .iterClose]).log.count e = (expectedClose r).count e ∧
     (nextEv (initSt r cfg) (.freeze etag)).1.r.body.kind = .seq ∧
@@ -533,29 +531,8 @@ theorem freeze_partial (r : R) (cfg : Cfg) (etag m : Str) (e : CloseEv)
   have hlen : totalLen (r.body.items.map fun i => Item.bytes i.encode) = (allBytes r.body.items).length := by
     simp [totalLen, allBytes, List.length_flatten, Item.encode, Function.comp_def]
   refine ⟨?_, rfl, ?_⟩
-  · have hexp : (expectedClose r).count e = r.onClose.count e := by
-      unfold expectedClose
-      cases hkk : r.body.kind with
-      | seq => simp
-      | stream c =>
-        cases c with
-        | true => exact absurd hkk hk
-        | false => simp
-    -- the state after `freeze()` is a fresh state of the frozen response
-    have hfz : ∃ r', (nextEv (initSt r cfg) (.freeze etag)).1 = initSt r' cfg ∧ r'.status = r.status ∧
-        r'.directPassthrough = r.directPassthrough ∧ r'.body.kind = .seq ∧ r'.onClose = r.onClose := by
-      refine ⟨(nextEv (initSt r cfg) (.freeze etag)).1.r, ?_, rfl, rfl, rfl, rfl⟩
-      simp only [nextEv, initSt]
-      cases r.body.kind <;> rfl
-    obtain ⟨r', hr', hst, hdp, hkind, hon⟩ := hfz
-    have := close_exactly_once_history r' cfg [] [] m [] [] rfl (by rw [hst, hdp]; exact h) e
-    simp only [List.nil_append, List.append_nil, List.cons_append, regs, Nat.add_zero] at this
-    have hrun : runEvs (initSt r cfg) [.freeze etag, .getWsgi m [] [], .iterClose]
-        = runEvs (initSt r' cfg) [.getWsgi m [] [], .iterClose] := by
-      simp only [runEvs]; rw [hr']
-    rw [hrun, this, hexp]
-    unfold expectedClose
-    rw [hkind, hon]; simp
+  · have := close_exactly_once_history r cfg [.freeze etag] [] m [] [] rfl h e
+    simpa [regs] using this
   · rw [← hlen]
     simp only [nextEv]
     split
